@@ -67,7 +67,7 @@ func shapesStr(in []*ref.T) string {
 /* ---------------- C03 ---------------- */
 
 func checkC03(c *core.Ctx) {
-	shapes := enum.ShapeSet(c.Thorough())
+	shapes := append(enum.ShapeSet(c.Thorough()), longShapes(c.Thorough())...)
 	unaryOps := []ref.Op{}
 	for _, a := range []float64{-1.5, 0, 2} {
 		unaryOps = append(unaryOps, ref.Op{K: "Scale", F: a})
@@ -101,7 +101,7 @@ func checkC03(c *core.Ctx) {
 		}
 	}
 	// (c) Add/Sub/Mul/Div: every target shape, every operand pair broadcasting to it
-	bshapes := shapes
+	bshapes := append(enum.ShapeSet(c.Thorough()), []int{40}, []int{2, 33}, []int{33, 2}, []int{3, 17, 2})
 	for _, t := range bshapes {
 		if c.Expired() {
 			break
@@ -161,6 +161,32 @@ func checkC03(c *core.Ctx) {
 					return v
 				}
 				return checkEquals(a, b)
+			})
+		}
+	}
+	// (e0) ordered comparisons and ElMax/ElMin on tiny and huge magnitudes
+	// (distinct values closer than the Eq tolerance are still ordered)
+	extremes := []float64{0, 5e-324, -5e-324, 1e-300, 2e-300, -1e-300, 2e-250, -3e-250, 1e-200, 1e300, -1e300, 1.7e308, 1, 1 + 1e-15}
+	for i, a := range extremes {
+		for j, b := range extremes {
+			a, b := a, b
+			c.Case(fmt.Sprintf("extreme/%d,%d", i, j), true, func() core.Verdict {
+				x := &ref.T{Shape: []int{2}, V: []float64{a, 0.5}}
+				y := &ref.T{Shape: []int{2}, V: []float64{b, 0.5}}
+				for _, k := range []string{"Gt", "Ge", "Lt", "Le", "ElMax", "ElMin"} {
+					if v := applyBoth(ref.Op{K: k}, []*ref.T{x, y}, true); !v.OK {
+						return v
+					}
+				}
+				if a == b || math.Abs(a-b) > 1e-200 {
+					for _, k := range []string{"Eq", "Ne"} {
+						if v := applyBoth(ref.Op{K: k}, []*ref.T{x, y}, true); !v.OK {
+							return v
+						}
+					}
+					return checkEquals(x, y)
+				}
+				return core.Pass()
 			})
 		}
 	}
@@ -263,8 +289,60 @@ func checkC04(c *core.Ctx) {
 			}
 		}
 	}
+	// magnitudes: entries from value classes spanning 1e-300..1e250 (terms must
+	// not be dropped or reordered away), exhaustively for [1,2]x[2,1], [2,1]x[1,2]
+	// and Dot of 2-vectors
+	mags := []float64{0, 1, -2.5, 1e-250, -1e-300, 1e250, 5e-324}
+	nm := len(mags)
+	for code := 0; code < nm*nm*nm*nm; code++ {
+		code := code
+		c.Case(fmt.Sprintf("magnitude/%d", code), true, func() core.Verdict {
+			v := make([]float64, 4)
+			x := code
+			for i := range v {
+				v[i] = mags[x%nm]
+				x /= nm
+			}
+			a12, b21 := &ref.T{Shape: []int{1, 2}, V: []float64{v[0], v[1]}}, &ref.T{Shape: []int{2, 1}, V: []float64{v[2], v[3]}}
+			for _, pr := range [][2]*ref.T{{a12, b21}, {b21, a12}} {
+				exp, _ := ref.Eval(ref.Op{K: "MatMul"}, []*ref.T{pr[0], pr[1]})
+				got, err := rt.Apply(ref.Op{K: "MatMul"}, []tensor.Tensor{rt.Make(pr[0], false), rt.Make(pr[1], false)})
+				if err != nil {
+					return core.Fail("MatMul: %v", err)
+				}
+				if ok, msg := core.RelClose(rt.Read(got), exp, 1e-12, 0); !ok {
+					return core.Fail("MatMul %v x %v: %s", pr[0], pr[1], msg)
+				}
+			}
+			d1, d2 := &ref.T{Shape: []int{2}, V: []float64{v[0], v[1]}}, &ref.T{Shape: []int{2}, V: []float64{v[2], v[3]}}
+			exp, _ := ref.Eval(ref.Op{K: "Dot"}, []*ref.T{d1, d2})
+			got, err := rt.Apply(ref.Op{K: "Dot"}, []tensor.Tensor{rt.Make(d1, false), rt.Make(d2, false)})
+			if err != nil {
+				return core.Fail("Dot: %v", err)
+			}
+			if ok, msg := core.RelClose(rt.Read(got), exp, 1e-12, 0); !ok {
+				return core.Fail("Dot %v . %v: %s", d1, d2, msg)
+			}
+			return core.Pass()
+		})
+	}
+	// long inner / outer dimensions
+	for _, mnk := range [][3]int{{1, 40, 1}, {2, 33, 3}, {17, 2, 19}, {9, 9, 9}, {33, 1, 33}, {5, 64, 2}} {
+		for _, batch := range [][]int{{}, {2}, {3, 1}} {
+			mnk, batch := mnk, batch
+			c.Case(fmt.Sprintf("matmullong/%v/%v", batch, mnk), true, func() core.Verdict {
+				sa := append(ref.CopyShape(batch), mnk[0], mnk[1])
+				sb := append(ref.CopyShape(batch), mnk[1], mnk[2])
+				a, b := enum.Generic(sa, 49, 0.5, 3, true), enum.Generic(sb, 50, 0.5, 3, true)
+				if v := applyBoth(ref.Op{K: "MatMul"}, []*ref.T{a, b}, false); !v.OK {
+					return v
+				}
+				return applyBoth(ref.Op{K: "Dot"}, []*ref.T{a, enum.Generic(sa, 51, 0.5, 3, true)}, false)
+			})
+		}
+	}
 	// Dot up to rank 6, Transpose over the whole shape set
-	for _, s := range enum.ShapeSet(c.Thorough()) {
+	for _, s := range append(enum.ShapeSet(c.Thorough()), longShapes(c.Thorough())...) {
 		s := s
 		if len(s) >= 1 {
 			c.Case(fmt.Sprintf("dotfull/%v", s), true, func() core.Verdict {
@@ -359,6 +437,16 @@ func matmulIdentities(a, b *ref.T) core.Verdict {
 
 /* ---------------- C05 ---------------- */
 
+// longShapes: a few shapes with long dimensions (thresholds such as block
+// sizes, unrolling factors or small-buffer optimisations live beyond size 3).
+func longShapes(thorough bool) [][]int {
+	out := [][]int{{31}, {32}, {33}, {64}, {65}, {100}, {257}, {2, 40}, {40, 2}, {33, 3}, {2, 40, 3}, {5, 7}, {7, 5, 4}, {17, 17}}
+	if thorough {
+		out = append(out, []int{1000}, []int{1025}, []int{3, 129, 2}, []int{130, 3}, []int{4, 4, 4, 4}, []int{5, 5, 5}, []int{2, 2, 2, 2, 2, 2, 2}[:6], []int{8, 9, 10})
+	}
+	return out
+}
+
 func checkC05(c *core.Ctx) {
 	kinds := []string{"Sum", "Max", "Min", "Avg", "Var", "Std", "Mean"}
 	global := func(t tensor.Tensor, k string) float64 {
@@ -402,7 +490,7 @@ func checkC05(c *core.Ctx) {
 			return t
 		}},
 	}
-	for _, s := range enum.ShapeSet(c.Thorough()) {
+	for _, s := range append(enum.ShapeSet(c.Thorough()), longShapes(c.Thorough())...) {
 		for _, md := range modes {
 			s, md := s, md
 			c.Case(fmt.Sprintf("global/%s/%v", md.name, s), ref.Size(s) > 1, func() core.Verdict {
